@@ -33,6 +33,7 @@ func try(f func()) (panicked string) {
 			}
 		}
 	}()
+	fuseArm()
 	f()
 	return ""
 }
